@@ -180,6 +180,12 @@ static inline bool sid_eq(sid a, sid b) { return a == b; }
 #define HEAP_N 65536
 #endif
 #define HEAP_FIELD(T, NAME) T NAME[HEAP_N];
+/* typed havoc (a bool stays 0/1, which a byte-wise havoc does not guarantee) */
+#define HAVOC_SCALAR_FIELD(F, T, A)                                                           \
+    for (unsigned k = 0; k < HEAP_N; ++k) {                                                   \
+        T nondet_field_##A(void);                                                             \
+        F[k] = nondet_field_##A();                                                            \
+    }
 /* pointwise containers: arbitrary length, NULL buffer (the contract's is_fresh clauses allocate
  * the buffers that are used) */
 #define HAVOC_CONTAINER_FIELD(F, T)                                                           \
